@@ -91,10 +91,10 @@ func init() {
 		})
 	clusterCheck("C08",
 		func() []Unit {
-			return cat(scUnits(1, "write3", "write3-slowfsm", "write3-pipe", "crash3", "crash3-slowfsm", "transfer", "transfer-pipe", "majority-restart", "batch-mix", "batch-mix-plain", "batch-lag", "batch-lag-plain"), scUnits(2, "apply-fine1", "apply-fine1-batching"))
+			return cat(scUnits(1, "write3", "write3-slowfsm", "write3-pipe", "crash3", "crash3-slowfsm", "transfer", "transfer-pipe", "majority-restart", "batch-mix", "batch-mix-plain", "batch-lag", "batch-lag-plain"), scUnits(2, "apply-fine1", "apply-fine1-batching", "apply-fine1-storeerr", "apply-fine1-batching-storeerr"))
 		},
 		func() []Unit {
-			return cat(scUnits(2, "write3", "write3-slowfsm", "write3-pipe", "crash3", "crash3-slowfsm", "transfer", "transfer-slowfsm", "transfer-pipe", "majority-restart", "fig8", "batch-mix", "batch-mix-plain", "batch-mix-cfgstore", "batch-lag", "batch-lag-plain"), scUnits(3, "apply-fine1", "apply-fine1-batching"))
+			return cat(scUnits(2, "write3", "write3-slowfsm", "write3-pipe", "crash3", "crash3-slowfsm", "transfer", "transfer-slowfsm", "transfer-pipe", "majority-restart", "fig8", "batch-mix", "batch-mix-plain", "batch-mix-cfgstore", "batch-lag", "batch-lag-plain"), scUnits(3, "apply-fine1", "apply-fine1-batching", "apply-fine1-storeerr", "apply-fine1-batching-storeerr"))
 		})
 	clusterCheck("C10",
 		func() []Unit {
@@ -118,9 +118,9 @@ func init() {
 	timedRule := "deviation-bounded DFS in the timed regime: the root execution performs the scripted fault at its default instant; every alternative performs it at another quiescent instant (or changes one timeout jitter); a case is one complete execution; distinct = distinct final outcome"
 	register(&Check{Prop: "C13", Level: "model_checking", Rule: timedRule, Assumptions: timedAssumptions, Units: func(tier string) []Unit {
 		if tier == "thorough" {
-			return scUnits(1, "lease3", "lease3-b", "lease2nv", "quiet3", "quiet-addvoter-slow")
+			return scUnits(1, "lease3", "lease3-b", "lease2nv", "lease3-busy", "quiet3", "quiet-addvoter-slow")
 		}
-		return cat(scUnits(1, "lease3", "lease2nv", "quiet-addvoter-slow"), []Unit{{Name: "quiet3", Sc: scenarioByName("quiet3"), Bound: 1, Budget: 0}})
+		return cat(scUnits(1, "lease3", "lease2nv", "lease3-busy", "quiet-addvoter-slow"), []Unit{{Name: "quiet3", Sc: scenarioByName("quiet3"), Bound: 1, Budget: 0}})
 	}})
 	register(&Check{Prop: "C14", Level: "model_checking", Rule: timedRule, Assumptions: timedAssumptions, Units: func(tier string) []Unit {
 		if tier == "thorough" {
@@ -146,7 +146,7 @@ func init() {
 				us = append(us, scUnit("shutdown-"+k+"-batch", b))
 			}
 		}
-		us = append(us, scUnit("stepdown-calls", b), scUnit("verify-deposed", 1), scUnit("rcl1-after", 1), scUnit("rcl3-after", 1), scUnit("restore3-inflight", 1))
+		us = append(us, scUnit("stepdown-calls", b), scUnit("verify-deposed", 1), scUnit("rcl1-after", 1), scUnit("rcl3-after", 1), scUnit("restore3-inflight", 1), scUnit("lease2nv-live", 0))
 		if tier == "thorough" {
 			us = append(us, scUnits(1, "write3", "crash3", "transfer", "member")...)
 		}
